@@ -251,6 +251,145 @@ def task_full_priv(a, env):
     return r
 
 
+# ------------------------------------------------------------------ modular inverse corners, error-path histories
+def _near_phi(n):
+    """floor(n / phi): residues there make Euclid's algorithm take its longest runs (quotients all 1)"""
+    from math import isqrt
+    S_ = 10 ** 200
+    return (2 * n * S_) // (S_ + isqrt(5 * S_ * S_))
+
+
+def _small_primes(hi):
+    return [q for q in range(2, hi) if all(q % d for d in range(2, int(q ** 0.5) + 1))]
+
+
+def inv_case(a_, n):
+    S, _m = L.full()
+    f = getattr(S, "inv", None)
+    if f is None:
+        return None
+    o = L.call(f, a_, n)
+    exp = ("ok", pow(a_, -1, n) if a_ % n else 0)
+    return None if o == exp else (exp, o)
+
+
+def phi_add_case(k, which):
+    """add / from_jacobian where the inverted value lies next to P/phi: two curve points whose
+    x-coordinates differ by floor(P/phi) + k (scanning k upward until both are on the curve)"""
+    S, m = L.full()
+    base = _near_phi(m.p) if which == 0 else m.p - _near_phi(m.p)
+    A = m.mul(m.G, 7 + which)
+    out = []
+    kk = k
+    while True:
+        B = m.lift_x((A[0] + base + kk) % m.p, False)
+        if B is not None:
+            break
+        kk += 1
+    exp, got = _chk_add(S, m, A, B)
+    out.append(("add:x-difference-near-P/phi", exp, got, kk))
+    fj = getattr(S, "from_jacobian", None)
+    if fj is not None:
+        z = (base + k) % m.p
+        Q = m.mul(m.G, 11)
+        jac = (Q[0] * z * z % m.p, Q[1] * z * z * z % m.p, z)
+        o = L.call(fj, jac)
+        out.append(("from_jacobian:z-near-P/phi", Q, L.to_model(o[1]) if o[0] == "ok" else o, k))
+    return out
+
+
+def task_inv(a, env):
+    S, m = L.full()
+    r = R("modular-inverse:all-residues-of-small-moduli+windows-near-n/phi")
+    if getattr(S, "inv", None) is None:
+        r.skipped.append("secp256k1.inv")
+    else:
+        for q in _small_primes(a["hi"]):
+            for x in range(q):
+                bad = inv_case(x, q)
+                r.ev += 1
+                if bad:
+                    r.viol("C18:inv:small-modulus", ME + ":replay_inv", {"x": hex(x), "n": hex(q)}, bad[0], bad[1])
+        for n in (m.p, m.n):
+            for base in (_near_phi(n), n - _near_phi(n)):
+                for x in range(base - a["w"], base + a["w"]):
+                    bad = inv_case(x, n)
+                    r.ev += 1
+                    if bad:
+                        r.viol("C18:inv:near-n/phi", ME + ":replay_inv", {"x": hex(x), "n": hex(n)}, bad[0], bad[1])
+    for which in (0, 1):
+        for k in range(0, a["w"], max(1, a["w"] // 40)):
+            for lbl, exp, got, kk in phi_add_case(k, which):
+                r.ev += 1
+                r.dk.add((which, k, lbl))
+                if exp != got:
+                    r.viol("C18:full:%s" % lbl, ME + ":replay_phi", {"k": k, "which": which}, exp, got)
+    r.dn += r.ev - len(r.dk)
+    r.transitions = r.ev
+    r.sample({"inv": "inv(x, q) for every x of every prime q < %d; x in floor(n/phi) +- %d for n = P, N" % (a["hi"], a["w"]),
+              "add": "points whose x-coordinates differ by floor(P/phi) + k"})
+    return r
+
+
+def replay_inv(a):
+    bad = inv_case(int(a["x"], 16), int(a["n"], 16))
+    return None if not bad else {"expected": bad[0], "observed": bad[1]}
+
+
+def replay_phi(a):
+    for lbl, exp, got, kk in phi_add_case(a["k"], a["which"]):
+        if exp != got:
+            return {"case": lbl, "expected": exp, "observed": got}
+    return None
+
+
+def errpath_case(cfg, i, j):
+    """history: multiply(P1, 5); calls on another point P2 that fail on their scalar / operand; then P1 again"""
+    S, m = L.get(cfg)
+    P1, P2 = m.mul(m.G, 2 + i), m.mul(m.G, 3 + i + j)
+    out = []
+    L.call(S.multiply, L.to_lib(P1), 5)
+    for lbl, f in (("scalar None", lambda: S.multiply(L.to_lib(P2), None)), ("scalar str", lambda: S.multiply(L.to_lib(P2), "3")),
+                   ("scalar bytes", lambda: S.multiply(L.to_lib(P2), b"\x03")), ("scalar float", lambda: S.multiply(L.to_lib(P2), 2.5)),
+                   ("add(P2, None)", lambda: S.add(L.to_lib(P2), None)), ("point None", lambda: S.multiply(None, 3)),
+                   ("point of 3 coordinates", lambda: S.multiply(L.to_lib(P2) + (1,), 3)),
+                   ("privtopub(None)", lambda: S.privtopub(None))):
+        L.call(f)
+        for n in (7, 5, m.n - 1):
+            exp, got = _chk_mul(S, m, P1, n)
+            out.append(("multiply(P1, %d) after %s" % (n, lbl), exp, got))
+        exp, got = _chk_add(S, m, P1, P2)
+        out.append(("add(P1, P2) after %s" % lbl, exp, got))
+        o = L.call(S.privtopub, (5).to_bytes(32, "big"))
+        out.append(("privtopub(5) after %s" % lbl, m.mul(m.G, 5 % m.n), L.to_model(o[1]) if o[0] == "ok" else o))
+        L.call(S.multiply, L.to_lib(P1), 5)
+    return out
+
+
+def task_errpath(a, env):
+    r = R("after-failing-calls")
+    for cfg in a["cfgs"]:
+        for i in range(2):
+            for j in range(1, 3):
+                for lbl, exp, got in errpath_case(cfg, i, j):
+                    r.ev += 1
+                    r.dk.add((str(cfg), i, j, lbl))
+                    if exp != got:
+                        r.viol("C18:%s:after-failing-call" % ("full" if cfg == "full" else "tiny"), ME + ":replay_errpath",
+                               {"cfg": cfg, "i": i, "j": j}, exp, got, note=lbl)
+                        break
+    r.transitions = r.ev
+    r.sample({"history": "multiply(P1, 5); multiply(P2, None) raises; multiply(P1, 7) ..."})
+    return r
+
+
+def replay_errpath(a):
+    for lbl, exp, got in errpath_case(a["cfg"], a["i"], a["j"]):
+        if exp != got:
+            return {"step": lbl, "expected": exp, "observed": got}
+    return None
+
+
 def replay(a):
     S, m = L.get(a["cfg"])
     op = a["op"]
@@ -298,4 +437,6 @@ def run(ctx):
     tasks += [("full_mul", {"lo": i, "step": step}) for i in range(step)]
     tasks.append(("full_priv", {}))
     tasks.append(("full_unreduced", {}))
+    tasks.append(("inv", {"hi": 500 if ctx.quick else 2000, "w": 1500 if ctx.quick else 20000}))
+    tasks.append(("errpath", {"cfgs": ["full", list(curves[0]), list(curves[3])]}))
     ctx.pmap(ME, tasks)
